@@ -1,4 +1,5 @@
 import MuduoVerif.Proofs.RpcLife
+import MuduoVerif.Proofs.RpcSkelTie
 /-!
 # C19 — every RPC completes exactly once with the response that carries its own id
 
@@ -30,6 +31,22 @@ abbrev reach (asserts hasServices : Bool) (acts : List Act) : Chan := run assert
 /-- the lock scopes the atomic steps of the model stand for (extracted from the source) -/
 theorem tie_locks : callInsertUnderLock = true ∧ respLookupUnderLock = true ∧ respRunOutsideLock = true ∧ callSendOutsideLock = true := by
   decide
+
+/-- T1, statement order: in `~RpcChannel`, `CallMethod`, `onMessage`, `onRpcMessage` (RESPONSE, REQUEST and ERROR
+branch), `doneCallback` and `RpcServer::onConnection` the source performs the same significant actions - id fetch,
+field sets of the outgoing frames, insert / erase on `outstandings_`, sends, parses, allocations, `unique_ptr` scopes,
+`delete`s, `Run()`, `service->CallMethod`, stores, assertions - in the same order and under the same nesting of the
+same sites (generated guards, `MutexLockGuard` scopes, the destructor's loop) as `Model/Rpc.lean`
+(`Model/RpcSkelDecl.lean`); re-extracted from /repo on every run (`Generated/RpcSkel.lean`), proved in
+`Proofs/RpcSkelTie.lean` -/
+theorem statement_order_tied :
+    Gen.RpcSkel.dtor = RpcSkel.Decl.dtor ∧
+    Gen.RpcSkel.callMethod = RpcSkel.Decl.callMethod ∧
+    Gen.RpcSkel.onMessage = RpcSkel.Decl.onMessage ∧
+    Gen.RpcSkel.onRpcMessage = RpcSkel.Decl.onRpcMessage ∧
+    Gen.RpcSkel.doneCallback = RpcSkel.Decl.doneCallback ∧
+    Gen.RpcSkel.onConnection = RpcSkel.Decl.onConnection :=
+  RpcSkel.skeletons_agree
 
 /-- the RESPONSE branch asserts nothing about the peer's message (T1: `respAssert` is re-extracted from
 `RpcChannel::onRpcMessage` on every run; with the `assert(has_response || has_error)` that finding C19-F1 was
